@@ -3,6 +3,7 @@ import OmplModel.Model.CRRT
 import OmplModel.Model.CSST
 import OmplModel.Model.CEST
 import OmplModel.Model.CKPIECE
+import OmplModel.Model.CPDST
 import OmplModel.Model.Rng
 import OmplModel.Model.ControlExtra
 import OmplModel.Model.ControlSys
@@ -88,8 +89,10 @@ def pSys : P (Cfg F) := do
   let dt ← pF
   let mn ← pN
   let mx ← pN
-  guardP (allLt lo hi && allLt clo chi)
-  guardP (dt > 1e-9 && mn ≥ 1 && mn ≤ mx && mx ≤ 1000)
+  guardP (allLt lo hi && (List.range clo.size).all fun i => g clo i ≤ g chi i)
+  guardP (dt > 1e-9 && (mn ≥ 1 || (mn == 0 && mx == 0)) && mn ≤ mx && mx ≤ 1000)
+  -- control::SpaceInformation::setup(): `minSteps_ == 0 && maxSteps_ == 0` becomes [1, 10]
+  let (mn, mx) := if mn == 0 && mx == 0 then (1, 10) else (mn, mx)
   pure { kind, lo, hi, clo, chi, dt, minSteps := mn, maxSteps := mx }
 
 def pEnv : P (List (Array F × Array F)) := do
@@ -616,6 +619,65 @@ def opKpiecePlay : P String := do
     s!" | kpiece size={d.size} cells={d.grid.cells.length} iteration={d.iteration}" ++
     s!" int={Grid.countInternal d.grid} ext={Grid.countExternal d.grid}" ++ cells)
 
+/-! ### control PDST on recorded draws (planner RNG = `Model/Rng.lean`) -/
+
+partial def pPdstDraws (acc : Array (CPDST.Draw (Array F) (Array F))) (nreals : Nat) :
+    P (Array (CPDST.Draw (Array F) (Array F))) := do
+  match (← get) with
+  | [] => pure acc
+  | _ =>
+    let t ← tok
+    let sample ←
+      if t == "G" then pure (#[] : Array F)
+      else if t == "U" then pReals nreals
+      else failure
+    let (cs, ks) ← pEvs #[] #[]
+    guardP (cs.size == ks.size && cs.size ≤ 50 && ks.all (· ≤ 100000))
+    pPdstDraws (acc.push { sample, ctl := cs.toList.zip ks.toList }) nreals
+
+def opPdstPlay : P String := do
+  let c ← pSys
+  let boxes ← pEnv
+  expect "starts"
+  let ns ← pN
+  guardP (ns ≥ 1 && ns ≤ 16)
+  let starts ← pMany (pReals c.kind.nreals) ns
+  expect "goal"
+  let gk ← pGoalKind
+  let goal ← pReals c.kind.nreals
+  let thr ← pF
+  let bias ← pKVF "bias"
+  let lseed ← pKVNat "lseed"
+  guardP (bias ≥ 0 && bias ≤ 1 && lseed < 4294967296)
+  expect "draws"
+  let draws ← pPdstDraws #[] c.kind.nreals
+  let valid := ControlSys.valid c eps boxes
+  let step := ControlSys.step c.kind c.dt
+  let goalT := goalTest gk 1.7976931348623157e308 goal thr
+  let Pb : CPDST.Problem (Array F) (Array F) F Rng.Rng :=
+    { step, valid, dist := ControlSys.dist c.kind,
+      close := fun a b => decide (ControlSys.dist c.kind a b < fltEps),
+      inf := 1.0 / 0.0, goal := goalT, goalSample := goal, goalSampleable := gk == .pos, canSample := true,
+      goalBias := bias, minSteps := c.minSteps,
+      project := fun s => #[g s 0, g s 1], ndim := 2, lo := #[g c.lo 0, g c.lo 1], hi := #[g c.hi 0, g c.hi 1],
+      rng01 := fun r => r.uniform01,
+      rngInt1 := fun r hi => let x := r.uniformInt 1 (Int.ofNat hi); (x.1.toNat, x.2) }
+  let r := CPDST.solve Pb (Rng.Rng.create lseed.toUInt64) starts draws.toList
+  let st := r.final
+  let order := st.heap.arr.toList.map (·.key.2)
+  let pos := fun (i : Nat) => match order.idxOf? i with | some j => toString j | none => "x"
+  let body := String.join (order.map fun i =>
+    match st.motions[i]? with
+    | none => " [?]"
+    | some m =>
+      s!" [{showReals m.start} ; {showReals m.stop} ; " ++ (match m.control with | some u => showReals u | none => "-") ++
+        s!" ; {m.dur} ; {floatBits m.priority} ; " ++
+        (match st.cells[m.cell]? with | some cl => floatBits cl.volume | none => "?") ++ " ; " ++
+        (match m.parent with | none => "-" | some p => pos p) ++ s!" ; {if m.isSplit then 1 else 0}]")
+  pure (solHead c r.status r.dif r.path goalT step valid ++
+    s!" | pdst n={order.length} cells={st.cells.size} iteration={st.iteration} last=" ++
+    (match st.lastGoal with | some l => pos l | none => "-") ++ body)
+
 def init (ts : List String) : Option Unit :=
   match ts with
   | ["control"] => some ()
@@ -639,6 +701,7 @@ def step (_ : Unit) (ts : List String) : Unit × String :=
   | "sstplay" :: rest => ((), runP opSstPlay rest)
   | "estplay" :: rest => ((), runP opEstPlay rest)
   | "kpieceplay" :: rest => ((), runP opKpiecePlay rest)
+  | "pdstplay" :: rest => ((), runP opPdstPlay rest)
   | _ => ((), "bad-op")
 
 end OmplModel.Driver.ControlDrv
